@@ -2,7 +2,7 @@
 """run_seeded.py [--only id,id] [--checks C01,C02|auto] — applies each seeded change
 to /repo, runs the checks, records which raise a violation, and undoes the change.
 auto: the check of the property the change is declared to break."""
-import json, os, subprocess, sys, glob, time
+import json, os, subprocess, sys, glob, time, shutil, tempfile
 V = os.path.dirname(os.path.dirname(os.path.abspath(__file__)))
 only = None
 checks = "auto"
@@ -15,6 +15,11 @@ while args:
         checks = args.pop(0)
 res = {}
 subprocess.check_call(["git", "-C", "/repo", "diff", "--quiet"])
+# evidence and replay files describe runs on /repo itself: keep the clean-tree ones
+keep = tempfile.mkdtemp(prefix="seeded_keep_", dir=os.path.join(V, "work"))
+for sub in ("evidence", "replay"):
+    if os.path.isdir(os.path.join(V, sub)):
+        shutil.copytree(os.path.join(V, sub), os.path.join(keep, sub))
 for d in sorted(glob.glob(os.path.join(V, "seeded", "*"))):
     sid = os.path.basename(d)
     if only and sid not in only:
@@ -32,4 +37,9 @@ for d in sorted(glob.glob(os.path.join(V, "seeded", "*"))):
             print(sid, p, "exit", r.returncode, len(vio), "violation line(s)", vio[:1], flush=True)
     finally:
         subprocess.check_call(["git", "-C", "/repo", "checkout", "--", "."])
+for sub in ("evidence", "replay"):
+    if os.path.isdir(os.path.join(keep, sub)):
+        shutil.rmtree(os.path.join(V, sub), ignore_errors=True)
+        shutil.copytree(os.path.join(keep, sub), os.path.join(V, sub))
+shutil.rmtree(keep, ignore_errors=True)
 json.dump(res, open(os.path.join(V, "work", "seeded_results.json"), "w"), indent=1)
